@@ -84,6 +84,7 @@ pub enum Edit {
     EditEntrySilently(u64),  // a field changes, the modification time does not, nothing is committed (a careless writer)
     UseEntry(u64),           // merely used: usage count and last access time change, nothing else
     UseGroup(u64),           // the same for a group
+    TweakEntryUncommitted(u64), // an attribute that is not a field changes (quality-check flag, tags, icon, override URL), new modification time, not committed
 }
 
 fn find_group_mut<'a>(g: &'a mut Group, id: u64) -> Option<&'a mut Group> {
@@ -207,6 +208,20 @@ pub fn apply(db: &mut Database, ed: &Edit, at: i64, fresh: &mut u64) -> bool {
             if let Some(e) = find_entry_mut(&mut db.root, *id) {
                 e.times.usage_count += 1;
                 e.times.set_last_access(ts(at));
+                true
+            } else {
+                false
+            }
+        }
+        Edit::TweakEntryUncommitted(id) => {
+            if let Some(e) = find_entry_mut(&mut db.root, *id) {
+                match (*id + at as u64) % 4 {
+                    0 => e.quality_check = Some(!e.quality_check.unwrap_or(true)),
+                    1 => e.tags.push(format!("tag{}", at)),
+                    2 => e.icon_id = Some(at as usize % 60),
+                    _ => e.override_url = Some(format!("cmd://{}", at)),
+                }
+                e.times.set_last_modification(ts(at));
                 true
             } else {
                 false
@@ -390,6 +405,7 @@ pub fn alphabet(db: &Database) -> Vec<Edit> {
         out.push(Edit::SetEntryUncommitted(*e, 1));
         out.push(Edit::EditEntrySilently(*e));
         out.push(Edit::UseEntry(*e));
+        out.push(Edit::TweakEntryUncommitted(*e));
         for g in &groups {
             out.push(Edit::MoveEntry(*e, *g));
         }
@@ -565,6 +581,12 @@ fn run_pair_sub(ctx: &mut Ctx, anc: &Database, ea: &[Edit], eb: &[Edit], tags: V
     if !ok {
         return true;
     }
+    run_pair_dbs(ctx, &a, &b, ea.iter().map(|e| format!("{:?}", e)).collect(), eb.iter().map(|e| format!("{:?}", e)).collect(), tags)
+}
+
+/// merge `b` into `a` (and again, and the result into itself, and `a` into itself) and emit the case
+fn run_pair_dbs(ctx: &mut Ctx, a: &Database, b: &Database, edits_a: Vec<String>, edits_b: Vec<String>, tags: Vec<String>) -> bool {
+    let (a, b) = (a.clone(), b.clone());
     let mut it = Intern { content: HashMap::new(), other: HashMap::new() };
     let dst_j = it.db(&a);
     let src_j = it.db(&b);
@@ -583,8 +605,8 @@ fn run_pair_sub(ctx: &mut Ctx, anc: &Database, ea: &[Edit], eb: &[Edit], tags: V
     let nontrivial = m1["outcome"] != "ok" || m1["events"].as_array().map(|x| !x.is_empty()).unwrap_or(false) || !b.deleted_objects.objects.is_empty();
     ctx.emit(json!({
         "op": "merge", "now": t0,
-        "edits_a": ea.iter().map(|e| format!("{:?}", e)).collect::<Vec<_>>(),
-        "edits_b": eb.iter().map(|e| format!("{:?}", e)).collect::<Vec<_>>(),
+        "edits_a": edits_a,
+        "edits_b": edits_b,
         "dst": dst_j, "src": src_j,
         "tags": tags, "nontrivial": nontrivial,
         "real": {"m1": m1, "m2": m2, "mresult_self": ms, "mself": mself},
@@ -648,6 +670,60 @@ pub fn run(ctx: &mut Ctx) {
                 if !run_pair_at(ctx, &base, ea, eb, vec!["uncommitted-revert".into()], b0) {
                     ctx.out_flush_and_exit();
                 }
+            }
+        }
+    }
+    // an ancestor whose nodes carry the earliest time stamp a KDBX4 file can hold (0001-01-01T00:00:00, what a writer stores for
+    // "never"): every present-day deletion is later than that
+    {
+        const YEAR1: i64 = -62_135_596_800;
+        let mut anc = Database::new(Default::default());
+        anc.root = new_group(1, 100, "Root");
+        anc.root.children.push(Node::Entry(new_entry(10, YEAR1, "e10")));
+        let mut g1 = new_group(2, YEAR1, "G1");
+        g1.children.push(Node::Entry(new_entry(11, YEAR1 + 1, "e11")));
+        g1.children.push(Node::Group(new_group(3, YEAR1, "S1")));
+        anc.root.children.push(Node::Group(g1));
+        anc.root.children.push(Node::Group(new_group(4, YEAR1 + 86_400, "G2")));
+        for eb in [vec![Edit::DeleteEntry(10)], vec![Edit::DeleteEntry(11)], vec![Edit::DeleteGroup(4, true)], vec![Edit::DeleteGroup(2, false)],
+                   vec![Edit::DeleteGroup(3, true)], vec![Edit::EditEntry(10)], vec![Edit::RenameGroup(4)]] {
+            for ea in [vec![], vec![Edit::UseEntry(10)], vec![Edit::EditEntry(11)]] {
+                if !run_pair_at(ctx, &anc, &ea, &eb, vec!["year-one-ancestor".into()], 102) {
+                    ctx.out_flush_and_exit();
+                }
+            }
+        }
+    }
+    // three replicas: the pair that is merged got part of its state from earlier merges with a third replica (the source learnt an
+    // older version after the destination had merged the source's newest one, …)
+    for k in 0..ctx.count(60, 600) {
+        let anc = ancestor();
+        let mut reps = [anc.clone(), anc.clone(), anc.clone()];
+        let mut fresh = [1000u64, 2000, 3000];
+        let steps = 4 + (k % 5) as usize;
+        let mut log: Vec<String> = Vec::new();
+        let mut clock = 100i64;
+        for _ in 0..steps {
+            clock += 1;
+            let r = rng.below(3) as usize;
+            if rng.chance(2, 5) {
+                let o = (r + 1 + rng.below(2) as usize) % 3;
+                let other = reps[o].clone();
+                if reps[r].merge(&other).is_ok() {
+                    log.push(format!("r{}<-r{}", r, o));
+                }
+            } else {
+                let e = *rng.pick(&[10u64, 11]);
+                let ed = rng.pick(&[Edit::EditEntry(e), Edit::EditEntry(e), Edit::SetEntry(e, 1), Edit::EditEntryUncommitted(e), Edit::RenameGroup(2), Edit::MoveEntry(e, 4)]).clone();
+                if apply(&mut reps[r], &ed, clock, &mut fresh[r]) {
+                    log.push(format!("r{}:{:?}@{}", r, ed, clock));
+                }
+            }
+        }
+        let tag = vec!["three-replicas".to_string()];
+        for (d, s_) in [(0usize, 1usize), (1, 0), (0, 2)] {
+            if !run_pair_dbs(ctx, &reps[d], &reps[s_], log.clone(), vec![format!("merge r{}<-r{}", d, s_)], tag.clone()) {
+                ctx.out_flush_and_exit();
             }
         }
     }
